@@ -39,6 +39,45 @@ def text(e, style=0):
     return '(%s%s%s)' % (text(e[1], style), ops[t], text(e[2], style))
 
 
+_PREC = {'|': 1, '&': 2, '~': 3, 'v': 4, 'c': 4}
+
+
+def text_min(e, style=0):
+    """the same expression with the fewest brackets Python needs: `a and b and c`, `~a & b | c`.  Unbracketed chains of
+    one operator reach the library as ONE n-ary node (ast.BoolOp) or as a left-nested chain (ast.BinOp); and/or are
+    associative, so the denoted function is the one of the bracketed form"""
+    t = e[0]
+    if t in ('v', 'c'):
+        return str(e[1])
+    ops = {0: {'~': '~', '&': ' & ', '|': ' | '}, 1: {'~': 'not ', '&': ' and ', '|': ' or '}}[style]
+
+    def sub(c, p):
+        x = text_min(c, style)
+        return '(%s)' % x if _PREC[c[0]] < p else x
+    if t == '~':
+        return ops['~'] + sub(e[1], 3)
+    return sub(e[1], _PREC[t]) + ops[t] + sub(e[2], _PREC[t])
+
+
+def chains(vs, rng, n):
+    """left-nested chains of 3-6 operands of one operator (literals, constants, small sub-expressions)"""
+    out = []
+    for _ in range(n):
+        op = rng.choice('&|')
+        k = rng.randint(3, 6)
+        items = []
+        for _ in range(k):
+            r = rng.random()
+            v = ('v', rng.choice(vs))
+            items.append(v if r < 0.5 else ('~', v) if r < 0.75 else ('c', rng.randint(0, 1)) if r < 0.8
+                         else (('|' if op == '&' else '&'), v, ('v', rng.choice(vs))))
+        e = items[0]
+        for x in items[1:]:
+            e = (op, e, x)
+        out.append(e)
+    return out
+
+
 def vars_of(e, acc=None):
     acc = set() if acc is None else acc
     if e[0] == 'v':
@@ -371,8 +410,8 @@ def check_notation_case(case):
 
     def bad(kind, what):
         fails.append((kind, '%s [args %r, e=%s]' % (what, args, text(e))))
-    for style in (0, 1):
-        src = text(e, style)
+    for style in (0, 1, 2, 3):
+        src = text(e, style) if style < 2 else text_min(e, style - 2)
         lam = call(OBDD, 'lambda %s: %s' % (', '.join(args), src))
         exp = call(OBDD, src, list(args))
         if exp[0] != 'ok':
@@ -385,7 +424,7 @@ def check_notation_case(case):
             continue
         if not (lam[1] == exp[1]) or lam[1].root is not exp[1].root:
             bad('lambda:ensures:equals_expr', 'lambda form and expression form differ for %r' % (src,))
-        if style == 1:
+        if style in (1, 3):
             amp = call(OBDD, text(e, 0), list(args))
             if amp[0] == 'ok' and not (amp[1] == exp[1]):
                 bad('synonyms:and_or_not', 'and/or/not form differs from &,|,~ form')
